@@ -33,7 +33,7 @@ TECHNIQUE = "property-based testing (Hypothesis): stateful model-based oracle ov
 
 
 def cases(tier):
-    return 3200 if tier == "quick" else 96000
+    return 3200 if tier == "quick" else 600000
 
 
 def strategy(hazards):
